@@ -71,7 +71,7 @@ PROPS = {
                   "Lean 4 theorems (byte-level disjointness of contract key spaces from the C07 prefix theorems; engine-level frame: only invoked contracts' windows change, by mutual induction) + differential correspondence of all storage views",
                   "Disjointness holds for all key bytes by the prefix-code theorems; non-interference of whole executions is proved on the engine model; the four views (contract reads, raw query, dump_wasm_raw, contract_storage) and bank/registry dumps are compared with the model after contracts write adversarial keys.",
                   "contracts created from the same and different codes write keys crafted to look like other modules' raw prefixes (bank balances, contract registry, wasm namespace, empty key, 00/ff); after every transaction dump_wasm_raw, contract_storage().range, WasmQuery::Raw, smart-query range and contract_data of every contract plus bank balances are observed; slice wasm-legacy repeats this on an App with a permissive Api and a custom AddressGenerator handing out contract0..contract12, so that one address is a strict prefix of another and keys spell the tail of the longer sibling"),
-    "C10": _entry("C10", "CwMt.Props.C10", [("wasm", 8000, 300000), ("wasm-stk", 2500, 60000), ("wasm-admin", 1500, 40000)], "pred_c10",
+    "C10": _entry("C10", "CwMt.Props.C10", [("wasm", 8000, 300000), ("wasm-stk", 2500, 60000), ("wasm-admin", 1500, 40000), ("wasm-legacy", 800, 20000)], "pred_c10",
                   "Lean 4 theorems (query has no state output by type; the snapshot a contract gets is the enclosing transaction's current state) + differential correspondence of query answers recorded mid-transaction, each App query issued twice and bracketed by raw-storage hashes",
                   "Purity is a typing fact of the model and visibility is proved on the engine; contracts issue bank/raw/smart/info/code queries at random points of generated trees (after funds transfer, after completed and after caught-failed sub-messages) and their recorded answers must equal the model's.",
                   _GEN + "App-level queries are asked twice and bracketed by raw hashes", nt="nt_wasm"),
